@@ -129,6 +129,55 @@ example : (∀ i, ∀ j ∈ exNbrs i, j < 5) ∧ (∀ i, (exNbrs i).Nodup) ∧ (
 example : core exNbrs 3 1 ∧ ¬ core exNbrs 3 0 ∧ isLab (dbscan (some exNbrs) 3 5) 0 0 := by
   refine ⟨by unfold core; decide, by unfold core; decide, by unfold isLab; decide⟩
 
+/-! ## OPTICS -/
+section optics
+open LinfaSpec.Optics
+variable {D : Type} [LinearOrder D]
+
+/-- **core distance**: every listed sample carries, as core distance, element `min_points - 1` of
+the ascending list `ds` of the distances to the samples in range (itself included, distance to
+itself first) — i.e. the distance to its `min_points`-th nearest neighbour if that one is in
+range, and undefined (`none`) if fewer than `min_points` samples are in range.  `ds` is *the*
+sorted arrangement of the in-range distances (`ds ~ map (dist i) (nbrs i)`, ascending). -/
+theorem optics_core_distance (nbrs : Nat → List Nat) (dist : Nat → Nat → D) (mp n : Nat) :
+    ∀ e ∈ optics (some nbrs) dist mp n, ∃ ds : List D,
+      ds.Perm ((nbrs e.index).map (dist e.index)) ∧ ds.Pairwise (· ≤ ·) ∧ e.core = ds[mp - 1]? := by
+  intro e he
+  have h := foldl_CoreOK nbrs dist mp n (List.range n) (Optics.init n)
+    (by intro e he; simp [Optics.init] at he) e he
+  refine ⟨(findNeighbors nbrs dist e.index).map (dist e.index), ?_, ?_, ?_⟩
+  · exact (findNeighbors_perm nbrs dist e.index).map _
+  · exact findNeighbors_sorted nbrs dist e.index
+  · rw [h, coreDist_eq]
+
+/-- **the core distance does not depend on the neighbour index**: two query results for sample `i`
+that contain the same positions in any order give the same core distance (this is what failed for
+the linear search before the `fix:` that sorts the neighbours). -/
+theorem optics_core_distance_index_independent (nbrs nbrs' : Nat → List Nat) (dist : Nat → Nat → D)
+    (mp i : Nat) (h : (nbrs i).Perm (nbrs' i)) :
+    coreDist dist mp i (findNeighbors nbrs dist i) = coreDist dist mp i (findNeighbors nbrs' dist i) := by
+  rw [coreDist_eq, coreDist_eq, sorted_dists_unique nbrs nbrs' dist i h]
+
+end optics
+
+/-- non-vacuity (the witness of the fixed defect): samples `[0, 3, 0.5, 2.5, 1, 9, 9.5]` ×2 (so that the
+distances are naturals), tolerance 5.5, `min_points = 3`.  The linear search returns `[0, 2, 3, 4]` for
+sample 0, the trees `[0, 2, 4, 3]`; both give core distance 2 (= 1.0), unsorted reading gave 5. -/
+def exDist (i j : Nat) : Nat :=
+  let xs := [0, 6, 1, 5, 2, 18, 19]
+  let a := xs[i]?.getD 0; let b := xs[j]?.getD 0
+  if a < b then b - a else a - b
+
+
+
+example : Optics.coreDist exDist 3 0 (Optics.findNeighbors (fun _ => [0, 2, 3, 4]) exDist 0) = some 2 := by
+  simp [Optics.coreDist, Optics.findNeighbors, exDist, List.mergeSort, List.MergeSort.Internal.splitInTwo]
+example : Optics.coreDist exDist 3 0 (Optics.findNeighbors (fun _ => [0, 2, 4, 3]) exDist 0) = some 2 := by
+  simp [Optics.coreDist, Optics.findNeighbors, exDist, List.mergeSort, List.MergeSort.Internal.splitInTwo]
+example : Optics.coreDist exDist 3 0 [0, 2, 3, 4] = some 5 := by decide
+example : ([0, 2, 3, 4] : List Nat).Perm [0, 2, 4, 3] := by decide
+
+
 /-- records without features (the index constructor reports `ZeroDimension`): DBSCAN returns one
 `None` per sample (this is the behaviour recorded as finding `C08-zero-features-dbscan`) -/
 theorem dbscan_zero_dimension (mp n : Nat) :
